@@ -42,14 +42,29 @@ func coqNs(l []int) string {
 
 // a submitted command and its eventual outcome
 type c12Handle struct {
-	tag    int
-	kind   string
-	mu     sync.Mutex
-	done   bool
-	status int
-	count  int   // number of completions observed (must end up 1)
-	data   []int // what Collect/Wait delivered (list: mailbox ids, search: numbers, expunge: numbers)
-	sent   []int // oracle: data the server sent in answer to this command
+	tag     int
+	kind    string
+	mu      sync.Mutex
+	done    bool
+	status  int
+	count   int    // number of completions observed (must end up 1)
+	data    []int  // what Collect/Wait delivered (list: mailbox ids, search: numbers, expunge: numbers, status: MESSAGES)
+	sent    []int  // oracle: data the server sent in answer to this command
+	box     string // status: the mailbox name the command was issued for
+	sentBox string // status: the name as the server spelled it in its STATUS response
+	gotBox  string // status: StatusData.Mailbox returned by Wait
+}
+
+// c12Boxes: mailbox names of STATUS commands. Names other than INBOX are case-sensitive (RFC 9051
+// 5.1), so "boxa", "Boxa" and "BOXA" are three mailboxes; INBOX in any spelling is one.
+var c12Boxes = []string{"boxa", "Boxa", "BOXA", "INBOX", "inbox", "Drafts", "drafts/2020", "Drafts/2020"}
+
+// boxKey: two names designate the same mailbox iff their keys are equal
+func boxKey(name string) string {
+	if strings.EqualFold(name, "INBOX") {
+		return "INBOX"
+	}
+	return name
 }
 
 func statusOf(err error) int {
@@ -72,6 +87,7 @@ type c12Session struct {
 	peer    *scriptedPeer
 	client  *imapclient.Client
 	handles []*c12Handle
+	nextBox string        // mailbox of the next "status" submission ("" = boxa)
 	steps   []string      // Coq terms "(events, obs)"
 	log     []interface{} // replay description
 	// oracle state (reference interpretation of the transcript)
@@ -92,6 +108,7 @@ func (s *c12Session) submit(kind string, name int) *c12Handle {
 	mbox := []string{"", "boxa", "boxb"}[name]
 	var wait func() error
 	var got []int
+	gotBox := ""
 	switch kind {
 	case "noop":
 		c := s.client.Noop()
@@ -110,8 +127,22 @@ func (s *c12Session) submit(kind string, name int) *c12Handle {
 		c := s.client.Unselect()
 		wait = c.Wait
 	case "status":
-		c := s.client.Status("boxa", &imap.StatusOptions{NumMessages: true})
-		wait = func() error { _, err := c.Wait(); return err }
+		hd.box = s.nextBox
+		if hd.box == "" {
+			hd.box = "boxa"
+		}
+		s.nextBox = ""
+		c := s.client.Status(hd.box, &imap.StatusOptions{NumMessages: true})
+		wait = func() error {
+			d, err := c.Wait()
+			if d != nil && err == nil {
+				gotBox = d.Mailbox
+				if d.NumMessages != nil {
+					got = append(got, int(*d.NumMessages))
+				}
+			}
+			return err
+		}
 	case "list":
 		c := s.client.List("", "*", nil)
 		wait = func() error {
@@ -190,6 +221,7 @@ func (s *c12Session) submit(kind string, name int) *c12Handle {
 		hd.done = true
 		hd.status = statusOf(err)
 		hd.data = got
+		hd.gotBox = gotBox
 		hd.count++
 		hd.mu.Unlock()
 	}()
@@ -490,6 +522,20 @@ func runC12(h *H) {
 					nontrivialData = true
 				}
 				send(fmt.Sprintf("T%d %s done", hd.tag, word))
+			} else if hd.kind == "status" {
+				// the STATUS response names its mailbox (INBOX in the server's own spelling)
+				if status == 0 {
+					datum++
+					hd.sentBox = hd.box
+					if boxKey(hd.box) == "INBOX" && rng.Intn(2) == 0 {
+						hd.sentBox = "INBOX"
+					}
+					send(fmt.Sprintf(`* STATUS %q (MESSAGES %d)`, hd.sentBox, datum))
+					ev("EvOther")
+					hd.sent = append(hd.sent, datum)
+					nontrivialData = true
+				}
+				send(fmt.Sprintf("T%d %s done", hd.tag, word))
 			} else if hd.kind == "list" {
 				for k := rng.Intn(4); k > 0; k-- {
 					datum++
@@ -524,8 +570,16 @@ func runC12(h *H) {
 				var batch []*c12Handle
 				var kinds []string
 				plainSearch := false
+				// one batch in five consists of STATUS commands only (mailboxes of c12Boxes)
+				statusBurst := rng.Intn(5) == 0
+				if statusBurst {
+					h.Hist("step:status-burst")
+				}
 				for j := 0; j < k; j++ {
 					kind := []string{"noop", "status", "list", "fetch", "search", "expunge", "uidfetch", "esearch"}[rng.Intn(8)]
+					if statusBurst {
+						kind = "status"
+					}
 					kinds = append(kinds, kind)
 					if kind == "search" {
 						plainSearch = true
@@ -536,6 +590,9 @@ func runC12(h *H) {
 						// a plain SEARCH and an extended SEARCH in flight together: untagged SEARCH
 						// data carries no correlator, so the two are not pipelined together here
 						kind = "search"
+					}
+					if kind == "status" {
+						s.nextBox = c12Boxes[rng.Intn(len(c12Boxes))]
 					}
 					batch = append(batch, s.submit(kind, 0))
 					ev("EvSubmit " + kindCoq(kind, 0))
@@ -549,11 +606,27 @@ func runC12(h *H) {
 					nontrivial = true
 				}
 				// commands whose untagged data would be ambiguous (two LISTs, two SEARCHes, two
-				// EXPUNGEs) are answered in submission order (RFC 9051 5.5); everything else in any order
-				for _, kind := range []string{"list", "search", "expunge", "fetch", "uidfetch"} {
+				// EXPUNGEs, two STATUSes of the same mailbox) are answered in submission order
+				// (RFC 9051 5.5); everything else in any order -- in particular STATUS commands
+				// for different mailboxes, whose responses name their mailbox
+				group := func(hd *c12Handle) string {
+					if hd.kind == "status" {
+						return "status|" + boxKey(hd.box)
+					}
+					return hd.kind
+				}
+				groups := []string{"list", "search", "expunge", "fetch", "uidfetch"}
+				seenGroup := map[string]bool{}
+				for _, hd := range batch {
+					if g := group(hd); hd.kind == "status" && !seenGroup[g] {
+						seenGroup[g] = true
+						groups = append(groups, g)
+					}
+				}
+				for _, kind := range groups {
 					var pos []int
 					for i, pi := range perm {
-						if batch[pi].kind == kind {
+						if group(batch[pi]) == kind {
 							pos = append(pos, i)
 						}
 					}
@@ -720,6 +793,13 @@ func runC12(h *H) {
 				// routed by sequence number / UID / tag correlator: checked by the oracle only
 				desc["transcript"] = transcript
 				h.Fail("data-misrouted:"+hd.kind, fmt.Sprintf("command T%d (%s) was answered with data %v but its Collect/Wait returned %v", hd.tag, hd.kind, hd.sent, hd.data), desc)
+			}
+			if hd.done && hd.kind == "status" && hd.status == 0 {
+				// the STATUS response that answers the command is the one naming its mailbox
+				if fmt.Sprint(hd.data) != fmt.Sprint(hd.sent) || boxKey(hd.gotBox) != boxKey(hd.sentBox) {
+					desc["transcript"] = transcript
+					h.Fail("data-misrouted:status", fmt.Sprintf("command T%d (STATUS %q) was answered with * STATUS %q (MESSAGES %v) but its Wait returned Mailbox=%q MESSAGES=%v", hd.tag, hd.box, hd.sentBox, hd.sent, hd.gotBox, hd.data), desc)
+				}
 			}
 			if hd.done && (hd.kind == "list" || hd.kind == "search" || hd.kind == "expunge") {
 				dataObs = append(dataObs, fmt.Sprintf("(%d, %s)", hd.tag, coqNs(hd.data)))
